@@ -23,6 +23,13 @@ reg(Prop('C01', [
            exhaustive='.debug_macinfo: every section of <= 2 bytes; every string of <= 4 bytes over a 15-symbol alphabet; every type byte with operands present; every operand-carrying type x 7 LEB shapes x every truncation point; offsets 0..len+1, 2^32, 2^63, 2^64-1'),
     Stream('c0101.macro', 15000, 400000, 'model', timeout=600,
            exhaustive='.debug_macro: every section of <= 3 bytes over a 15-symbol alphabet; 12 flag bytes x every body of <= 3 symbols; all 256 flag bytes x both byte orders; every type byte x 4 header shapes; every operand-carrying type x 32/64-bit x both byte orders x 7 LEB shapes x every truncation point'),
+    # the read->write converters are modelled function by function for C12 (ConvertExpr / ConvertLists / ConvertCfi /
+    # ConvertLine, each with an explicit Panic outcome per build mode): their model streams run here too, so that a
+    # converter that panics where the model does not is reported by C01 with the failing input
+    Stream('c12.exprconv', 8000, 200000, 'model', timeout=900),
+    Stream('c12.listconv', 5000, 100000, 'model', timeout=900),
+    Stream('c12.cficonv', 5000, 100000, 'model', timeout=900),
+    Stream('c12.lineconv', 4000, 100000, 'model', timeout=900),
 ], level='proof', design_ref='§5 C01',
     clauses=['uleb_no_panic', 'sleb_no_panic', 'uleb16_no_panic', 'reader_ops_no_panic',
              'c01_c02_no_panic', 'c01_c03_no_panic', 'c01_c03_line_parse_no_panic', 'c01_c04_no_panic_parse_insn', 'c01_c04_no_panic_rows', 'c01_c04_no_panic_parse_header', 'c01_c05_entries_total', 'c01_c05_fde_parse_total', 'c01_c05_fde_for_address_total', 'c01_c05_hdr_parse_total', 'c01_c05_table_iter_total', 'c01_c05_table_iter_stops_after_error', 'c01_c05_table_nth_total', 'c01_c05_lookup_total', 'c01_c05_hdr_fde_for_address_total', 'c01_c06_no_panic', 'c01_c06_parse_insn_total', 'c01_c07_decode_no_panic', 'c01_c07_operations_terminate', 'c01_c07_eval_no_panic', 'c01_c08_no_panic_raw_ranges', 'c01_c08_no_panic_raw_locations', 'c01_c08_no_panic_tables', 'c01_c08_no_panic_ranges', 'c01_c08_no_panic_locations', 'c01_c08_no_panic_die_ranges_all', 'c01_c08_iter_terminates', 'c01_c08_raw_iter_stops_after_error', 'c01_c17_index_find_terminates', 'c01_c17_index_parse_no_panic', 'c01_c17_index_find_no_panic', 'c01_c17_index_sections_no_panic', 'c01_c17_names_bucket_terminates', 'c01_c17_names_hash_terminates', 'c01_c17_names_headers_no_panic', 'c01_c17_names_index_new_no_panic', 'c01_c17_names_entries_no_panic', 'c01_c17_aranges_no_panic', 'c01_c17_pubstuff_no_panic', 'c01_c18_reader_no_panic', 'c01_c19_worklist_fuel',
